@@ -10,9 +10,9 @@ B. the property on the implementation's own transcripts, every writable format: 
 import collections, os, re, shutil, tempfile, time
 
 from .. import scripts as S, worldcamp as WC, formats
-from ..core import Violation
+from ..core import Violation, modules_for
 
-MODULES = ["SfProps.C19"]
+MODULES = modules_for("C19")
 
 A_NOISE = ["strerror null", "strerror h0", "open h8 s7 r fmt=00040002 ch=0 sr=8000", "open h8 s7 w fmt=00010002 ch=0 sr=8000",
            "open h8 s7 rw fmt=00030002 ch=2000 sr=8000", "cmd h0 1002 4 zero", "seek h8 0 0", "close h8", "w h8 s16 i 0",
